@@ -493,6 +493,7 @@ void random_cfg(Rng &rng, Cfg &cfg, bool wellformed) {
         if (rng.chance(1, 4)) cfg.set("disposal", (long) rng.range(2, 3));
         if (rng.chance(1, 3)) { cfg.set("dec_swarm", (long) rng.below(1000000) + 1); cfg.set("dec_swarm_urlenc", rng.coin()); }
         if (rng.chance(1, 6)) cfg.set("cfg_copy", 1);
+        if (rng.chance(1, 10)) cfg.set("null_ts", 1);
     }
 }
 
